@@ -11,7 +11,7 @@ from vlib.meshreal import Live, apply_op
 TIME_CLASSES = ['at_start', 'before', 'just_after_start', 'inside', 'at_end', 'shortly_after', 'far_after', 'tail',
                 'tau_start', 'tau_end']
 POS_CLASSES = ['interior', 'end_a', 'end_b', 'near_out', 'mid_out', 'zero', 'L', 'node_other', 'uniform', 'across_seam',
-               'next_side', 'just_inside']
+               'next_side', 'just_inside', 'facing']
 
 
 POLYGONS = [
@@ -121,6 +121,24 @@ def realise(case, hook=None):
         i = g.side_of(xa, xb)
         j = (i + s) % (len(br) - 1)
         x = br[j] + (br[j + 1] - br[j]) * v
+    elif xcl == 'facing':
+        # the point of the curve nearest in the plane to the element's mid-point among those at least one element
+        # width away along the curve and three times as far along the curve as in the plane (thin plates, the two sides of a stadium, the legs of the L): close, yet far
+        mid = 0.5 * (xa + xb)
+        Pm = g.point(g.side_of(xa, xb), mid).ravel()
+        best = None
+        for i in range(g.n_sides):
+            ss = np.linspace(float(g.breaks[i]), float(g.breaks[i + 1]), 257)
+            arc = np.abs(ss - mid)
+            if wrap:
+                arc = np.minimum(arc, L - arc)
+            PP = g.point(i, ss)
+            d2 = (PP[0] - Pm[0])**2 + (PP[1] - Pm[1])**2
+            d2 = np.where((arc >= h) & (arc * arc >= 9 * d2), d2, np.inf)
+            k = int(np.argmin(d2))
+            if np.isfinite(d2[k]) and (best is None or d2[k] < best[0]):
+                best = (float(d2[k]), float(ss[k]))
+        x = place(best[1] + (v - 0.5) * h) if best is not None else v * L
     else:
         x = v * L
     x = float(min(max(x, 0.0), L))
